@@ -111,6 +111,12 @@ fn epoch_start_ns(h: &Hist, id: u64) -> Option<u64> {
     secs.checked_mul(1_000_000_000)
 }
 
+/// the account the farm manager currently pays its fees to (configurable: not necessarily the fee-collector contract)
+fn fm_collector(h: &Hist) -> String {
+    h.w.app.wrap().query_wasm_smart::<mantra_dex_std::farm_manager::Config>(h.w.a("fm"), &mantra_dex_std::farm_manager::QueryMsg::Config {})
+        .map(|c| h.w.n(c.fee_collector_addr.as_str())).unwrap_or("fc".into())
+}
+
 pub fn pre_tx_quotes(h: &Hist, ms: &mut MonState, line: &str) {
     ms.quote = None; ms.route_quote = None; ms.rewards_quote = None;
     let Some(tx) = parse_tx(line) else { return };
@@ -650,6 +656,15 @@ pub fn tx_monitors(h: &Hist, ms: &mut MonState, b: &Obs, line: &str, res: &str, 
             }
             ms.rewards_quote = None;
         }
+        // C08: a close (full or partial) splits / marks a position without creating or losing LP: the sum of the recorded amounts
+        // of the owner's positions in that LP token is the same before and after, and nothing moves on the bank
+        if ok && tx.contract == "fm" && tx.kind == "closepos" {
+            if let Some(p) = b.positions.iter().find(|p| p.identifier == tx.args[0]) {
+                let sum = |o: &Obs| -> u128 { o.positions.iter().filter(|q| q.receiver == p.receiver && q.lp_asset.denom == p.lp_asset.denom).map(|q| q.lp_asset.amount.u128()).sum() };
+                let lp = h.w.cd(&p.lp_asset.denom);
+                out.push(format!("mon_close_conserves {} {} {}", sum(b), sum(a), delta(b, a, "fm", &lp)));
+            }
+        }
         // C08: a position operation reaches a position only through its stored identifier: an accepted expand / close /
         // withdraw names a position of the before-state
         if tx.contract == "fm" && matches!(tx.kind.as_str(), "expandpos" | "closepos" | "withdrawpos") && !tx.args.is_empty() {
@@ -665,10 +680,13 @@ pub fn tx_monitors(h: &Hist, ms: &mut MonState, b: &Obs, line: &str, res: &str, 
                 let expired = p.expiring_at.map(|e| e <= now_s).unwrap_or(false);
                 out.push(format!("mon_withdrawpos_accept {} {} {} {} {}", ok as u8, (owner == tx.sender) as u8, emergency as u8,
                     p.expiring_at.map(|e| e.to_string()).unwrap_or("-".into()), now_s));
-                if ok {
-                    let owners: i128 = ["u1", "u2", "u3", "u4", "owner", "out"].iter().filter(|u| **u != owner).map(|u| delta(b, a, u, &lp)).sum();
+                // the roles of the accounts: position owner, the farm manager's configured fee collector, everybody else; when the
+                // collector IS the position owner the two payments cannot be told apart on the balances and the split is not judged
+                let coll = fm_collector(h);
+                if ok && coll != owner {
+                    let owners: i128 = ["u1", "u2", "u3", "u4", "owner", "out"].iter().filter(|u| **u != owner && **u != coll).map(|u| delta(b, a, u, &lp)).sum();
                     let gone = !a.positions.iter().any(|q| q.identifier == tx.args[0]);
-                    out.push(format!("mon_withdrawpos {} {} {} {} {} {} {}", p.lp_asset.amount, delta(b, a, &owner, &lp), delta(b, a, "fc", &lp), owners,
+                    out.push(format!("mon_withdrawpos {} {} {} {} {} {} {}", p.lp_asset.amount, delta(b, a, &owner, &lp), delta(b, a, &coll, &lp), owners,
                         -delta(b, a, "fm", &lp), (emergency && !expired) as u8, gone as u8));
                     // C09: WHO shares the penalty — exactly the distinct owners of the farms on this LP token that are
                     // active now (started, not expired), recomputed here from the farms of the before-state
@@ -682,13 +700,20 @@ pub fn tx_monitors(h: &Hist, ms: &mut MonState, b: &Obs, line: &str, res: &str, 
                                 let o = h.w.n(f.owner.as_str());
                                 if !exp && !expected.contains(&o) { expected.push(o); }
                             }
-                            let others: Vec<&str> = ["u1", "u2", "u3", "u4", "owner", "out"].into_iter().filter(|u| *u != owner).collect();
+                            // (the collector's own account is judged as collector, not as a farm owner)
+                            let others: Vec<&str> = ["u1", "u2", "u3", "u4", "owner", "out"].into_iter().filter(|u| *u != owner && *u != coll).collect();
                             let exp_others: Vec<&&str> = others.iter().filter(|u| expected.contains(&u.to_string())).collect();
                             let paid_exp = exp_others.iter().filter(|u| delta(b, a, u, &lp) > 0).count();
                             let paid_unexp = others.iter().filter(|u| !expected.contains(&u.to_string()) && delta(b, a, u, &lp) != 0).count();
                             let amounts: Vec<i128> = exp_others.iter().map(|u| delta(b, a, u, &lp)).collect();
                             let equal = amounts.windows(2).all(|w| w[0] == w[1]);
                             out.push(format!("mon_emergency_owners {} {} {} {}", exp_others.len(), paid_exp, paid_unexp, equal as u8));
+                            // C09: the AMOUNT withheld = floor(amount x min(cap, base x remaining/duration x weight/amount)) — judged
+                            // by the model's formula on the position as it was, when the owner is not also paid as a farm owner
+                            if !expected.contains(&owner) {
+                                out.push(format!("mon_penalty_amount {} {} {} {} {} {}", p.lp_asset.amount, p.unlocking_duration,
+                                    p.expiring_at.map(|e| e.to_string()).unwrap_or("-".into()), now_s, cfg.emergency_unlock_penalty.atomics(), delta(b, a, &owner, &lp)));
+                            }
                         }
                     }
                 }
@@ -797,7 +822,7 @@ pub fn tx_monitors(h: &Hist, ms: &mut MonState, b: &Obs, line: &str, res: &str, 
                 let d = h.w.cd(&f.farm_asset.denom);
                 let owner = h.w.n(f.owner.as_str());
                 let remaining = f.farm_asset.amount.u128().saturating_sub(f.claimed_amount.u128());
-                let others: i128 = USERS.iter().filter(|u| **u != owner).map(|u| delta(b, a, u, &d).abs()).sum::<i128>() + delta(b, a, "fc", &d).abs();
+                let others: i128 = USERS.iter().filter(|u| **u != owner).map(|u| delta(b, a, u, &d).abs()).sum::<i128>() + if USERS.contains(&fm_collector(h).as_str()) { 0 } else { delta(b, a, "fc", &d).abs() };
                 out.push(format!("mon_farm_close {} {} {} {}", remaining, delta(b, a, &owner, &d), -delta(b, a, "fm", &d), others));
             }
         }
@@ -805,7 +830,8 @@ pub fn tx_monitors(h: &Hist, ms: &mut MonState, b: &Obs, line: &str, res: &str, 
             None => true,
             Some(g) => g.owner != f.owner || g.start_epoch != f.start_epoch || g.farm_asset.denom != f.farm_asset.denom || g.claimed_amount < f.claimed_amount,
         });
-        if ok && tx.kind == "createfarm" && !farm_closed {
+        // (when the configured fee collector is the creator itself, fee and payment cancel on its balance: not judged)
+        if ok && tx.kind == "createfarm" && !farm_closed && fm_collector(h) != tx.sender {
             // what the creator paid, what the fee collector and the farm manager received
             let fee = h.w.app.wrap().query_wasm_smart::<mantra_dex_std::farm_manager::Config>(h.w.a("fm"), &mantra_dex_std::farm_manager::QueryMsg::Config {}).map(|c| c.create_farm_fee).ok();
             if let Some(fee) = fee {
@@ -821,7 +847,7 @@ pub fn tx_monitors(h: &Hist, ms: &mut MonState, b: &Obs, line: &str, res: &str, 
                     extra += (paid - due).abs();
                 }
                 let newfarm = a.farms.iter().find(|f| !b.farms.iter().any(|g| g.identifier == f.identifier));
-                out.push(format!("mon_farm_create {} {} {} {} {}", aa, fee.amount, delta(b, a, "fc", &fee.denom), extra,
+                out.push(format!("mon_farm_create {} {} {} {} {}", aa, fee.amount, delta(b, a, &fm_collector(h), &h.w.cd(&fee.denom)), extra,
                     newfarm.map(|f| f.farm_asset.amount.u128()).unwrap_or(0)));
             }
         }
